@@ -200,7 +200,7 @@ pub struct ChildResult {
 }
 
 pub fn bin_dir() -> PathBuf {
-    PathBuf::from("/verif/target/bin")
+    crate::supervisor::verif_root().join("target/bin")
 }
 
 pub fn wac_binary() -> PathBuf {
